@@ -337,9 +337,3 @@ func gen(g *lp.Gen) {
 		genResp(g, tr, lg)
 	}
 }
-
-func genBody(g *lp.Gen) {
-	// placeholder until body.go is filled in: a minimal response case
-	g.P("C resp v=11 m=GET conn=none fail=0 sf=0 mv=0")
-	g.P("F")
-}
